@@ -119,7 +119,9 @@ void run(Ctx &ctx) {
     { uint64_t ci = 0;
       for (int c = 0x21; c < 0x7f; c++) { if (!ctx.mine(ci++) || ctx.expired()) continue; Str x(1, (char)c);
           for (auto &u : { "a" + x + "b://h/", "A" + x + ":p", "//a" + x + "B/p", "//" + x + "/", "//u" + x + "U@h", "//[v1." + x + "A]/", "//[v" + x + ".a]", "//[V" + x + "b.Q" + x + "]", "//[::" + x + "]", "//[A" + x + "::1.2.3.4]:1",
-                           "/a" + x + "B", "a" + x + "/B", "?a" + x + "B", "#a" + x + "B", "S://H:1" + x, "//h" + x + ":8/" }) {
+                           "/a" + x + "B", "a" + x + "/B", "?a" + x + "B", "#a" + x + "B", "S://H:1" + x, "//h" + x + ":8/",
+                           /* a first segment with a colon that dot removal or a leading "./" exposes, with every character in front of the colon (the guard "./" is owed whatever that character is) */
+                           "x/../a" + x + "b:c", "./" + x + "a:c/d", "x/./../" + x + ":" }) {
               if (!ref::is_uri_reference(u)) continue; ctx.progress++; ra.run_uri(u, -1, -1, -1, true); rw.run_uri(u, -1, -1, -1, true); ctx.st.count("raw_character_sweep"); } } }
     { Runner<char> sa(&ctx, &lc, 520); Runner<wchar_t> sw2(&ctx, &lc, 520); std::vector<Str> st = stretch_list(ctx.secondary || ctx.quick() ? 0 : 1);
       for (size_t i = 0; i < st.size(); i++) { if (!ctx.mine(i)) continue; if (ctx.expired()) break; ctx.progress++; sa.run_uri(st[i], -1, -1, -1, true); sw2.run_uri(st[i], -1, -1, -1, true); ctx.st.count("stretch_family"); } }
